@@ -1,4 +1,5 @@
 import LK.Generated.GuardsC14
+import LK.Model.ItemListHeap
 /-!
 # C14 — how deep the copies are that separate a built object from the builders derived from it
 Depth 0 is the object itself (an alias), 1 a fresh container holding the same members, 2 a deep copy.  The heap model
@@ -20,4 +21,54 @@ theorem builder_copies_schema_deeply : builderFromDatasetSchemaCopy = 2 := by de
 /-- `build()`: the built container gets its own deep copy of the builder's schema -/
 theorem build_copies_schema_deeply : buildContainerSchemaCopy = 2 := by decide
 
+/-- `ItemList(source, …)`: the effective fields are a new dictionary (`source._fields | fields`), not the source's -/
+theorem itemlist_effective_fields_fresh : 1 ≤ itemListEffFieldsCopy := by decide
+
+/-- `ItemList(source, …)`: the new list's `_fields` is bound to a new dictionary before anything is written into it -/
+theorem itemlist_fields_fresh : 1 ≤ itemListFieldsCopy := by decide
+
+/-- `ItemList(source, …)`: nothing the new list still shares with its source is changed in place -/
+theorem itemlist_shared_untouched : itemListSharedMutations = 0 := by decide
+
 end LK.Gen.GuardsC14
+
+namespace LK.ItemListHeap
+
+/-- one derivation under the code's discipline leaves every existing field dictionary as it was -/
+theorem derive_leaves (h : List Cell) (src : Nat) (adds : Cell) (drops : List String) (i : Nat) (hi : i < h.length) :
+    (derive true h src adds drops).1[i]? = h[i]? := by
+  simp [derive, List.getElem?_append_left hi]
+
+theorem derive_length (h : List Cell) (src : Nat) (adds : Cell) (drops : List String) :
+    (derive true h src adds drops).1.length = h.length + 1 := by
+  simp [derive]
+
+/-- **Components leave the lists they are given unchanged** (heap form): after any sequence of derivations — add, replace, remove
+    fields, from any existing list, including lists derived earlier — every list that existed before has the fields it had. -/
+theorem run_leaves (ops : List Op) (h : List Cell) (i : Nat) (hi : i < h.length) : (run true h ops)[i]? = h[i]? := by
+  induction ops generalizing h with
+  | nil => rfl
+  | cons o ops ih =>
+    have h1 : i < (derive true h o.src o.adds o.drops).1.length := by rw [derive_length]; omega
+    have := ih (derive true h o.src o.adds o.drops).1 h1
+    simp only [run, List.foldl_cons] at this ⊢
+    rw [this, derive_leaves h o.src o.adds o.drops i hi]
+
+/-- the derived list has exactly the effective fields -/
+theorem derive_new (h : List Cell) (src : Nat) (adds : Cell) (drops : List String) :
+    (derive true h src adds drops).1[(derive true h src adds drops).2]? = some (effective (h.getD src []) adds drops) := by
+  simp [derive]
+
+/-- a removed field is absent from the derived list -/
+theorem effective_drops (base adds : Cell) (drops : List String) (n : String) (hn : n ∈ drops) :
+    n ∉ (effective base adds drops).map Prod.fst := by
+  simp only [effective, List.mem_map, List.mem_filter, not_exists, not_and]
+  rintro ⟨k, v⟩ ⟨_, hk⟩ rfl
+  simp [hn] at hk
+
+/-- the discipline matters: editing the shared dictionary removes the field from the source as well (the witness is the
+    `scores=False` copy of a scored list) -/
+theorem shared_edit_changes_source :
+    (derive false [[("score", 7)]] 0 [] ["score"]).1[0]? ≠ some [("score", 7)] := by decide
+
+end LK.ItemListHeap
